@@ -135,7 +135,9 @@ def nan_propagates(check, prog):
     for q in (I + 'calc_intensity', I + 'scattered_field_to_hologram'):
         fd = prog.func(q)
         loc = prog.loc(q, fd)
-        it = Interp(prog, max_depth=0)
+        # (helpers of the module are followed: the sum may live in a shared one)
+        it = Interp(prog, max_depth=1, opaque=[I + 'calc_field', I + 'finalize',
+                                               I + 'prep_schema'])
         res = it.analyze(q)
         reds = [x for o in res.returns for x in subterms(o.value)
                 if x[0] == 'call' and isinstance(x[1], tuple) and x[1][0] == 'attr'
